@@ -8,6 +8,7 @@ integer constants, and the in-progress detection for constants and services are 
 inputs are regression witnesses: each is rejected, for every fuel.
 -/
 import ThriftVerif.Compile.GatherProofs
+import ThriftVerif.Compile.DupField
 import ThriftVerif.Compile.RepairedProofs
 
 namespace ThriftVerif.Properties.C09
@@ -138,6 +139,18 @@ theorem i8_out_of_range_rejected :
     (∀ fuel, 30 ≤ fuel → compile fuel [] progD9 = .err) ∧ (∀ fuel, (compile fuel [] progD9).isOk = false) ∧
     ¬ inRange 8 1000 :=
   ⟨(rejected_of_err err_D9).1, (rejected_of_err err_D9).2, by decide⟩
+
+/-- **A struct literal that gives one field twice is refused** (finding D95, repaired): `buildConstantStruct`
+accepts a literal only if its keys are pairwise different, so no value written for a field can be dropped
+unchecked; the witness `struct S {1: optional i8 x}  const S c = {"x": 1000, "x": 1}` — which compiled,
+with x = 1 and the 1000 never looked at — is rejected with every fuel from 30 on. -/
+theorem struct_literal_field_twice_rejected :
+    (∀ kvs : List (CV × CV), ¬ (litKeys kvs).Nodup → buildStruct kvs [] = none) ∧
+    (∀ (kvs : List (CV × CV)) (fs : List (Name × CV)), buildStruct kvs [] = some fs →
+      (litKeys kvs).Nodup ∧ (litKeys kvs).length = kvs.length) ∧
+    (∀ fuel, 30 ≤ fuel → compile fuel [] progD95 = .err) :=
+  ⟨buildStruct_dup_rejected, fun kvs fs h => ⟨(buildStruct_some kvs [] fs h).1, (buildStruct_some kvs [] fs h).2.2⟩,
+    (rejected_of_err err_D95).1⟩
 
 /-- **Enum-typed integer constants are exact.** An integer used at an enum type denotes the item
 with exactly that value (no comparison modulo 2^32). -/
